@@ -74,6 +74,19 @@ func (c *Chain) Fork(k int) *Chain {
 	return f
 }
 
+// ChainFrom returns a scratch chain holding the given valid blocks (oldest first, above genesis).
+func (nt *Net) ChainFrom(blocks []types.Block) *Chain {
+	f := nt.NewChain()
+	for _, b := range blocks {
+		if err := f.CM.AddBlocks([]types.Block{b}); err != nil {
+			panic(fmt.Sprintf("netx: replay of a valid block failed: %v", err))
+		}
+		f.Blocks = append(f.Blocks, b)
+		f.States = append(f.States, f.CM.TipState())
+	}
+	return f
+}
+
 func (c *Chain) Len() int { return len(c.Blocks) }
 
 func (c *Chain) Tip() types.ChainIndex { return c.CM.Tip() }
